@@ -55,6 +55,7 @@ type XGrammar struct {
 	Opts     []string
 	Types    []string // all arrow names used
 	Twins    int      // lists that repeat an earlier list's element under another node name
+	Designed bool     // built by DesignedXGrammar
 }
 
 // XEvent is an expected listener event in token-index space: the node covers
@@ -742,6 +743,7 @@ func DesignedXGrammar(r *rand.Rand, fixWS bool) *XGrammar {
 		sep = perm[8]
 	}
 	g.Twins = 1
+	g.Designed = true
 	body := []*XExpr{t(0), list("Ta", sep), t(1), list("Tb", sep), t(2)}
 	if fixWS {
 		body = append(body, nt(1)) // trailing nonterminal that may be empty
